@@ -326,13 +326,14 @@ readline_linecpy(struct readline *rl, char *line, size_t maxlen)
     if (maxlen == 0)
         return 0;
 
-    int len = (int)maxlen - 1 > (int)rl->line.len ? (int)rl->line.len
-                                                  : (int)maxlen - 1;
+    // computed in size_t: (int)maxlen is negative or 0 for a maxlen of 2^31
+    // and more, and the memcpy length became SIZE_MAX
+    size_t len = maxlen - 1 > rl->line.len ? rl->line.len : maxlen - 1;
 
     memcpy(line, rl->line.buf, len);
     line[len] = 0;
 
-    return len;
+    return (int)len;
 }
 
 __END_DECLS
